@@ -54,7 +54,7 @@ def plan(tier, seed):
 
 def floors(tier):
     return {"distinct_nontrivial": 500, "lookups": 20000, "retrieve.exact": 10000, "check.compared": 10000,
-            "cls:full_binding_history": 50, "cls:partial_binding_history": 500, "cls:overwrite": 100, "cls:clear": 100,
+            "cls:full_binding_history": 50, "cls:scale:history_of_40_to_800_inserts": 300, "cls:partial_binding_history": 500, "cls:overwrite": 100, "cls:clear": 100,
             "cls:extra_nonkey_entries": 100, "cls:values_shared_between_keys": 500, "cls:falsy_and_repeated_outputs": 300,
             "cls:raw_values_incl_None": 300, "cls:keys_and_bindings_spelled_in_reverse_order": 300,
             "cls:callers_dict_changed_after_insert": 200, "cls:lookups_left_after_their_first_match": 200, "cls:driven_while_the_caching_switch_is_off": 150}
@@ -87,10 +87,15 @@ def cases(spec, ctx):
         nkeys = rng.randint(1, 4)
         alpha = 3
         full_only = rng.random() < 0.15
+        long_history = i % 25 == 4
+        if long_history:
+            # SIZE: 40-800 inserts over an alphabet of 8-20 values per key (hundreds of distinct bindings in one index, dozens of
+            # coverage records), half of the histories with fully bound bindings only
+            nkeys, alpha, full_only = rng.randint(2, 3), rng.choice([8, 12, 20]), rng.random() < 0.5
         ops = []
-        for _ in range(rng.randint(3, 14)):
+        for _ in range(rng.randint(40, 800) if long_history else rng.randint(3, 14)):
             k = rng.random()
-            if k < 0.08:
+            if k < (0.002 if long_history else 0.08):
                 ops.append(["clear"])
             else:
                 b = [rng.randrange(alpha) if (full_only or rng.random() < 0.7) else None for _ in range(nkeys)]
@@ -102,12 +107,12 @@ def cases(spec, ctx):
                         b = list(rng.choice(prev)[1])   # overwrite an earlier binding
                 ops.append(["ins", b])
         lookups = []
-        for _ in range(6):
+        for _ in range(30 if long_history else 6):
             l = [rng.randrange(alpha) if rng.random() < 0.6 else None for _ in range(nkeys)]
             lookups.append([l, rng.random() < 0.25])
-        yield {"k": "rand", "nkeys": nkeys, "alpha": alpha, "ops": ops, "lookups": lookups, "only_last": False,
+        yield {"k": "rand", "nkeys": nkeys, "alpha": alpha, "ops": ops, "lookups": lookups, "only_last": False, "long_history": long_history,
                "shared_values": rng.random() < 0.5, "plain_outputs": rng.random() < 0.4,
-               "raw_values": rng.random() < 0.15, "unsorted_spelling": rng.random() < 0.3,
+               "raw_values": rng.random() < 0.15 and not long_history, "unsorted_spelling": rng.random() < 0.3,
                "caller_keeps_using_its_dict": rng.random() < 0.2, "abandoned_lookups": rng.random() < 0.2,
                "caching_switch_off": rng.random() < 0.15}
 
@@ -207,6 +212,8 @@ def check_case(case, ctx):
         lookups = case["lookups"]
     partial = any(any(x is None for x in op[1]) for op in case["ops"] if op[0] == "ins")
     ctx.cls("cls:partial_binding_history" if partial else "cls:full_binding_history")
+    if case.get("long_history"):
+        ctx.cls("cls:scale:history_of_40_to_800_inserts")
     if case.get("shared_values"):
         ctx.cls("cls:values_shared_between_keys")
     if case.get("plain_outputs"):
@@ -253,6 +260,8 @@ def check_case(case, ctx):
                     suspended.append(it_)
         if case.get("only_last") and step < len(case["ops"]) - 1:
             continue   # the prefixes are cases of their own in the exhaustive enumeration
+        if case.get("long_history") and step % 50 != 49 and step < len(case["ops"]) - 1:
+            continue   # (long histories are looked up after every 50th operation and at their end)
         for lspec, with_extra in lookups:
             l = {k: vals[k][x] for k, x in zip(keys, lspec) if x is not None}
             if case.get("unsorted_spelling"):
